@@ -3,3 +3,7 @@ open Biogo.Properties.C07
 #print axioms row_eq_column_multi
 #print axioms row_at_defined
 #print axioms row_eq_column_aln
+#print axioms truncate_exact
+#print axioms subseq_exact
+#print axioms append_exact_aln
+#print axioms append_no_retain_aln
